@@ -28,7 +28,7 @@ def showMsg (m : Msg) : String :=
 def unpackAll (lim : Nat) (inp : Bytes) : Nat → List Msg → List Msg × String
   | 0, acc => (acc.reverse, "runaway")
   | fuel + 1, acc =>
-    match (Raw.unpack testReg lim 1048576 inp).out with
+    match (Raw.unpack testReg lim inp).out with
     | .ok m rest => unpackAll lim rest fuel (m :: acc)
     | .eof => (acc.reverse, "eof")
     | .size => (acc.reverse, "size")
@@ -51,10 +51,7 @@ def c05 (kind : String) (f : Fields) : String :=
         | .eof => "eof"
         | .size => "size"
         | .reject _ => "reject"
-      let r0 := Raw.unpack testReg lim 0 b
-      let r1 := Raw.unpack testReg lim 1048576 b
-      let a := show1 r0; let c := show1 r1
-      if a == c then a else a ++ " || " ++ c
+      show1 (Raw.unpack testReg lim b)
     | _, _ => "bad-case"
   | "rawstream" =>
     match f.get "msgs", f.nat "limit", f.hex "tail" with
